@@ -1,4 +1,69 @@
-import SfxModel.ConvSpec
+import SfxProofs.CmpFloat
+/-
+  C03 — Comparisons order the exact values, across fixed types, integers and floats.
+  `cmpExact fa fb a b` compares the exact values `a / 2^fa` and `b / 2^fb` (−1 / 0 / 1); `cmpExactFloat fa a num e` compares
+  `a / 2^fa` with the exact float value `num·2^e`.  Integers are the zero-fraction layouts `Layout.ofInt`.
+-/
 namespace Sfx.C03
-theorem placeholder : True := trivial
+open Sfx.CmpPf Sfx.ConvPf
+
+/-- fixed vs fixed (and, as instances, fixed vs integer in both operand orders): all six operators and `partial_cmp`, for every
+ordered pair of valid layouts -/
+def C03_fixed : Prop :=
+  ∀ A B : Layout, A.valid → B.valid → ∀ a b : Int, inRange A a → inRange B b →
+    A.partialCmpFixed B a b = some (cmpExact A.f B.f a b) ∧
+    A.eqFixed B a b = decide (cmpExact A.f B.f a b = 0) ∧
+    A.ltFixed B a b = decide (cmpExact A.f B.f a b = -1) ∧
+    A.leFixed B a b = decide (cmpExact A.f B.f a b ≠ 1) ∧
+    A.gtFixed B a b = decide (cmpExact A.f B.f a b = 1) ∧
+    A.geFixed B a b = decide (cmpExact A.f B.f a b ≠ -1) ∧
+    cmpExact B.f A.f b a = -(cmpExact A.f B.f a b)
+
+/-- fixed vs float, both operand orders: finite floats compare by exact value; NaN is unordered and unequal to everything;
+infinities lie outside every fixed-point value -/
+def C03_float : Prop :=
+  ∀ A : Layout, A.valid → ∀ F : FloatFmt, (F = f32 ∨ F = f64) → ∀ a : Int, inRange A a → ∀ fb : Nat,
+    (∀ num e, floatExact F fb = some (num, e) →
+      A.partialCmpFloat F a fb = some (cmpExactFloat A.f a num e) ∧ A.floatPartialCmp F fb a = some (-(cmpExactFloat A.f a num e)) ∧
+      A.eqFloat F a fb = decide (cmpExactFloat A.f a num e = 0) ∧ A.ltFloat F a fb = decide (cmpExactFloat A.f a num e = -1) ∧
+      A.leFloat F a fb = decide (cmpExactFloat A.f a num e ≠ 1) ∧ A.gtFloat F a fb = decide (cmpExactFloat A.f a num e = 1) ∧
+      A.geFloat F a fb = decide (cmpExactFloat A.f a num e ≠ -1) ∧ A.floatLt F fb a = decide (cmpExactFloat A.f a num e = 1) ∧
+      A.floatLe F fb a = decide (cmpExactFloat A.f a num e ≠ -1) ∧ A.floatGt F fb a = decide (cmpExactFloat A.f a num e = -1) ∧
+      A.floatGe F fb a = decide (cmpExactFloat A.f a num e ≠ 1)) ∧
+    (floatExact F fb = none → (F.parts fb).2.2 ≠ 0 →          -- NaN
+      A.partialCmpFloat F a fb = none ∧ A.floatPartialCmp F fb a = none ∧ A.eqFloat F a fb = false ∧
+      A.ltFloat F a fb = false ∧ A.leFloat F a fb = false ∧ A.gtFloat F a fb = false ∧ A.geFloat F a fb = false ∧
+      A.floatLt F fb a = false ∧ A.floatLe F fb a = false ∧ A.floatGt F fb a = false ∧ A.floatGe F fb a = false) ∧
+    (floatExact F fb = none → (F.parts fb).2.2 = 0 →          -- ±∞
+      A.partialCmpFloat F a fb = some (if (F.parts fb).1 then 1 else -1) ∧ A.eqFloat F a fb = false ∧
+      A.ltFloat F a fb = !(F.parts fb).1 ∧ A.gtFloat F a fb = (F.parts fb).1)
+
+theorem fixed_holds : C03_fixed := fun A B hA hB a b ha hb =>
+  ⟨partialCmpFixed_spec A B hA hB a b ha hb, eqFixed_spec A B hA hB a b ha hb, ltFixed_spec A B hA hB a b ha hb,
+   leFixed_spec A B hA hB a b ha hb, gtFixed_spec A B hA hB a b ha hb, geFixed_spec A B hA hB a b ha hb, cmpExact_antisymm A.f B.f a b⟩
+
+theorem float_holds : C03_float := by
+  intro A hA F hF a ha fb
+  refine ⟨fun num e h => ?_, fun h hm => float_nan A F hF a fb h hm, fun h hm => ?_⟩
+  · obtain ⟨h1, h2, h3, h4, h5, h6, h7, h8, h9, h10⟩ := float_finite_ops A hA F hF a ha fb num e h
+    exact ⟨partialCmpFloat_finite A hA F hF a ha fb num e h, h10, h1, h2, h3, h4, h5, h6, h7, h8, h9⟩
+  · obtain ⟨h1, _, h3, h4, _, h6, _⟩ := float_infinite A F hF a fb h hm
+    exact ⟨h1, h3, h4, h6⟩
+
+/-- integers on either side -/
+theorem integers (L : Layout) (hL : L.valid) (si : Bool) (ni : Nat) (hni : ni = 8 ∨ ni = 16 ∨ ni = 32 ∨ ni = 64 ∨ ni = 128)
+    (a k : Int) (ha : inRange L a) (hk : inI si ni k) :
+    L.partialCmpFixed (Layout.ofInt si ni) a k = some (Layout.cmpInt a (k * 2 ^ L.f)) ∧
+    L.eqFixed (Layout.ofInt si ni) a k = decide (a = k * 2 ^ L.f) ∧ L.ltFixed (Layout.ofInt si ni) a k = decide (a < k * 2 ^ L.f) :=
+  let h := cmpInt_right_spec L hL si ni hni a k ha hk
+  ⟨h.1, h.2.1, h.2.2.1⟩
+
+/-- within one type, ordering / equality (and hence hashing, which is derived from the bits) of the bits are those of the value -/
+theorem same_type (L : Layout) (a b : Int) : Layout.cmpInt a b = cmpExact L.f L.f a b ∧ (cmpExact L.f L.f a b = 0 ↔ a = b) :=
+  ⟨CmpPf.same_type L a b, same_type_eq L a b⟩
+
+/-- non-vacuity: the pair that used to compare wrongly (I8F0 5 vs U8F0 200), NaN and the largest finite f32 -/
+example : (⟨true, 8, 0⟩ : Layout).valid ∧ (⟨false, 8, 0⟩ : Layout).valid ∧ inRange ⟨true, 8, 0⟩ 5 ∧ inRange ⟨false, 8, 0⟩ 200 ∧
+    floatExact f32 0x7FC00000 = none ∧ (floatExact f32 0x7F7FFFFF).isSome := by decide
+
 end Sfx.C03
